@@ -571,6 +571,9 @@ func registerNatives(p *Program) {
 		if w.n < 0 {
 			panic(targetPanic{v: r.runtimeError("sync: negative WaitGroup counter"), site: r.siteOf(g)})
 		}
+		if r.race != nil {
+			r.race.wgDone[a[0].(*Value)] = append(r.race.wgDone[a[0].(*Value)], r.syncEvent(g))
+		}
 		r.yield(g, "wg.Done")
 		return nil
 	}
@@ -580,6 +583,12 @@ func registerNatives(p *Program) {
 		for w.n > 0 {
 			g.ready = func() bool { return w.n == 0 }
 			r.block(g, "waitgroup")
+		}
+		if r.race != nil {
+			we := r.syncEvent(g)
+			for _, d := range r.race.wgDone[a[0].(*Value)] {
+				r.hb(d, we)
+			}
 		}
 		return nil
 	}
@@ -591,20 +600,33 @@ func registerNatives(p *Program) {
 			r.block(g, "once")
 		}
 		if o.done {
+			if r.race != nil {
+				if e, ok := r.race.onceEnd[a[0].(*Value)]; ok {
+					r.hb(e, r.syncEvent(g))
+				}
+			}
 			return nil
 		}
 		o.running = true
-		defer func() { o.running = false; o.done = true }()
+		defer func() {
+			o.running = false
+			o.done = true
+			if r.race != nil {
+				r.race.onceEnd[a[0].(*Value)] = r.syncEvent(g)
+			}
+		}()
 		r.callFunction(g, g.top, a[1], nil)
 		return nil
 	}
 
 	atomicLoad := func(r *Run, g *Goroutine, a []Value) Value {
 		r.yield(g, "atomic")
+		r.atomicAccess(g, a[0].(*Value), false)
 		return *(a[0].(*Value))
 	}
 	atomicStore := func(r *Run, g *Goroutine, a []Value) Value {
 		r.yield(g, "atomic")
+		r.atomicAccess(g, a[0].(*Value), true)
 		*(a[0].(*Value)) = a[1]
 		return nil
 	}
@@ -618,6 +640,7 @@ func registerNatives(p *Program) {
 		N["sync/atomic.Add"+t] = func(r *Run, g *Goroutine, a []Value) Value {
 			r.yield(g, "atomic")
 			p := a[0].(*Value)
+			r.atomicAccess(g, p, true)
 			*p = r.intBinop(g, token.ADD, k, k, *p, a[1])
 			return *p
 		}
